@@ -1375,12 +1375,24 @@ void Analyser::AnalyserImpl::analyseEquationAst(const AnalyserEquationAstPtr &as
         convertToDouble(ast->mPimpl->mValue, value);
 
         if (!areEqual(value, 1.0)) {
+            // Note: what is differentiated may be an expression rather than a
+            //       variable, in which case the variable of integration tells
+            //       us which component we are in.
+
             auto variable = astGreatGrandparent->mPimpl->mOwnedRightChild->variable();
             auto issue = Issue::IssueImpl::create();
 
-            issue->mPimpl->setDescription("The differential equation for variable '" + variable->name()
-                                          + "' in component '" + owningComponent(variable)->name()
-                                          + "' must be of the first order.");
+            if (variable != nullptr) {
+                issue->mPimpl->setDescription("The differential equation for variable '" + variable->name()
+                                              + "' in component '" + owningComponent(variable)->name()
+                                              + "' must be of the first order.");
+            } else {
+                variable = astGrandparent->mPimpl->mOwnedLeftChild->variable();
+
+                issue->mPimpl->setDescription("A differential equation in component '" + owningComponent(variable)->name()
+                                              + "' must be of the first order.");
+            }
+
             issue->mPimpl->mItem->mPimpl->setMath(owningComponent(variable));
             issue->mPimpl->setReferenceRule(Issue::ReferenceRule::ANALYSER_ODE_NOT_FIRST_ORDER);
 
